@@ -61,4 +61,84 @@ def exCalCustom : Cal :=
 /-- non-vacuity of `cal_roundtrip` -/
 example : exCalX.ok = true ∧ exCalCustom.ok = true ∧ Cal.default.ok = true := by decide
 
+/-- The packed calibration table unpacks to the dict it was made of: same elements in the same
+order, every calibration intact although all were padded to the common (largest) length.
+Hypotheses: distinct element names without trailing NUL, every calibration inside the quantifier. -/
+theorem calibrations_roundtrip (d : List (Str × Cal)) (hn : (keys d).Nodup)
+    (hk : ∀ kc ∈ d, noNulEnd kc.1 = true) (hc : ∀ kc ∈ d, kc.2.ok = true) :
+    unpackCalibration (packCalibration d) = d := by
+  unfold unpackCalibration packCalibration
+  rw [List.map_map]
+  have : d.map ((fun ea : Str × CalArr => (ea.1, Cal.fromArray ea.2)) ∘
+      fun kc : Str × Cal => (stripNul kc.1, kc.2.toArray (maxLen d))) = d := by
+    conv => rhs; rw [← List.map_id d]
+    apply List.map_congr_left
+    intro kc hkc
+    simp only [Function.comp, id]
+    rw [stripNul_of_noNulEnd _ (hk kc hkc), cal_roundtrip _ _ (hc kc hkc) (le_maxLen d kc hkc)]
+  rw [this]
+  exact dictOfList_of_nodup d hn
+
+/-- non-vacuity: two elements whose calibrations have 3 and 2 points -/
+example : (keys [(['A'], exCalX), (['B','\t','b'], exCalCustom)]).Nodup ∧ maxLen [(['A'], exCalX), (['B','\t','b'], exCalCustom)] = 3 := by
+  decide
+
+/-- the three configuration classes survive `to_array` → `from_array` with the class dispatch of
+`load`; for `SRRConfig` the constructor's recomputation reproduces the internal state (warm-up in
+samples, common sub-pixel size, offsets) for every positive scan time, every non-empty offset list
+and |warm-up| ≤ 2⁵⁰ samples, with every float operation within relative error 2⁻⁵³ (`hfl`) -/
+theorem config_roundtrip (fl : Rat → Rat) (hfl : ∀ x, |fl x - x| ≤ |x| / 2 ^ 53) (c : Config) (hok : c.ok = true) :
+    loadConfig fl (classOf c) (c.toArray fl) = .ok (if c.isSRR then Kind.srr else Kind.laser, c) :=
+  loadConfig_toArray fl hfl c hok
+
+/-- SRRConfig((0,2),(1,3)) with 125 warm-up samples at scan time 1/10 (state: size 6, offsets 0 and 2) -/
+def exSRR : SRR :=
+  { spotsize := Flt.num 1, speed := Flt.num 2, scantime := 1 / 10, warmupN := 125, subSize := 6, subOffsets := [0, 2] }
+
+example : exSRR.ok = true ∧ SRR.mk' id (Flt.num 1) (Flt.num 2) (1 / 10) (25 / 2) [(0, 2), (1, 3)] = exSRR := by decide +kernel
+
+/-- exact evaluation (`fl = id`, what the driver runs) satisfies the rounding hypothesis -/
+example : ∀ x : Rat, |id x - x| ≤ |x| / 2 ^ 53 := by
+  intro x; simp only [id, sub_self, abs_zero]; positivity
+
+/-- **Saving then loading gives the laser back**: for every laser inside the quantifier
+(`Laser.ok`: distinct element names without trailing NUL, one calibration per element in element
+order, every calibration `Cal.ok`, class and configuration matching, one layer or ≥ 2 layers of
+equal shape, packed info not ending in NUL) `load (save L)` succeeds and returns `normalise L`:
+data, dtypes, names, calibrations and configuration identical; info with tabs as spaces, without the
+old `File Path`, plus `Name` / `File Path` / `File Version`. -/
+theorem load_save (fl : Rat → Rat) (hfl : ∀ x, |fl x - x| ≤ |x| / 2 ^ 53) (p : PathInfo) (ver time : Str)
+    (L : Laser) (hL : L.ok = true) (hv : versionOk ver = true) (ht : noNulEnd time = true) :
+    (save fl ver time L >>= load fl p) = .ok (normalise p ver L) := by
+  simp only [Laser.ok, Bool.and_eq_true, decide_eq_true_eq, beq_iff_eq, List.all_eq_true] at hL
+  obtain ⟨⟨⟨⟨⟨⟨⟨hnul, hnodup⟩, hkeys⟩, hcal⟩, hkind⟩, hcfg⟩, hlayers⟩, hinfo⟩ := hL
+  obtain ⟨htab, ⟨r7, hr7, hr7'⟩, ⟨r8, hr8, hr8'⟩⟩ := versionOk_cases ver hv
+  obtain ⟨d, hd, hdf, hcons⟩ := data_roundtrip L hlayers
+  have hhdr := header_unpack ver (classOf L.config) time ht
+  rw [tabToSpace_of_tabFree ver htab, tabToSpace_classOf] at hhdr
+  have hcalrt : unpackCalibration (packCalibration L.cal) = L.cal := by
+    apply calibrations_roundtrip
+    · rw [hkeys]; exact hnodup
+    · intro kc hkc
+      apply hnul
+      rw [← hkeys]
+      exact List.mem_map_of_mem hkc
+    · intro kc hkc; exact hcal kc hkc
+  have hkindeq : (if L.config.isSRR then Kind.srr else Kind.laser) = L.kind := by
+    cases hk : L.kind <;> cases hc : L.config.isSRR <;> simp_all
+  have hmk : ∀ info, mkLaser L.kind L.fields L.layers L.cal L.config info = { L with info := info } := by
+    intro info
+    unfold mkLaser
+    have : dictUpdate (L.fields.map fun f => (f.1, Cal.default)) L.cal = L.cal := by
+      apply dictUpdate_same_keys
+      · rw [hkeys]; simp [keys, List.map_map, Function.comp_def]
+      · rw [hkeys]; exact hnodup
+    rw [this]
+  have h1 : kVersion ≠ kClass := by decide
+  simp only [save, hd, bind, Except.bind, pure, Except.pure]
+  simp only [load, loadHeader, loadInfo, loadCal, hhdr, dictGet, getOr, bind, Except.bind, pure, Except.pure,
+    if_true, if_neg h1.symm, if_neg h1, hr7, hr8, if_neg hr7', if_neg hr8', hcalrt,
+    config_roundtrip fl hfl L.config hcfg, hkindeq, hcons, hmk, unpack_pack_info L.info hinfo]
+  rfl
+
 end Pew.Npz
